@@ -118,6 +118,22 @@ JOBS = {
     "am1_ch2o_cis_loose": {"kind": "sp", "mol": "CH2O", "gs": 83,
                            "sett": _s("AM1", 1e-5, [2], excited_states={"n_states": 3, "tolerance": 1e-6, "method": "cis"},
                                       active_state=1), "sig": "X2"},
+    # systems with an atom pair beyond the 40 bohr (21.2 A) overlap cut-off: blocks that are never computed must still be
+    # defined numbers whatever the heap contained
+    "far_h2o_dimer": {"kind": "sp", "mol": ["H2O", [30.0, 1.0, 0.5]], "dimer": True, "gs": 91, "sett": _s("AM1", 1e-8, [2]),
+                      "sig": "F1"},
+    "far_ch2o_pm3": {"kind": "sp", "mol": ["CH2O", [2.0, 26.0, 3.0]], "dimer": True, "gs": 92, "sett": _s("PM3", 1e-8, [1]),
+                     "sig": "F2"},
+    "far_batch": {"kind": "sp", "mol": [["H2O", [28.0, 2.0, 1.0]], "NH3", ["HCN", [1.0, 2.0, 33.0]]], "dimer_batch": True,
+                  "gs": 93, "sett": _s("AM1", 1e-7, [2]), "sig": "F3"},
+    "md_far_h2o": {"kind": "md", "engine": "basic", "mol": ["H2O", [25.0, 3.0, 2.0]], "dimer": True, "gs": 94,
+                   "sett": _s("AM1", 1e-8, [2]), "sig": "F4", "steps": 2, "dt": 0.5, "Temp": 300.0, "seed": 41},
+    # partners for the interleaved-build histories (same molecule, other method)
+    "md_bomd_ch2o": {"kind": "md", "engine": "basic", "mol": "CH2O", "gs": 95, "sett": _s("AM1", 1e-8, [2]), "sig": "I1",
+                     "steps": 4, "dt": 0.5, "Temp": 300.0, "seed": 42},
+    "md_lang_ch2o": {"kind": "md", "engine": "langevin", "mol": "CH2O", "gs": 95, "sett": _s("AM1", 1e-8, [2]), "sig": "I2",
+                     "steps": 3, "dt": 0.5, "Temp": 300.0, "seed": 43, "damp": 20.0},
+    "pm3_ch2o": {"kind": "sp", "mol": "CH2O", "gs": 95, "sett": _s("PM3", 1e-8, [2]), "sig": "I3"},
     # rarely used options that bring their own tables / module state
     # AM1 + dispersion: non-bonded dimers (separation > 3 A), same largest Z but different element sets
     "disp_h2o_dimer": {"kind": "sp", "mol": ["H2O", [3.1, 0.6, 0.4]], "dimer": True, "gs": 71,
@@ -149,6 +165,7 @@ JOBS = {
 }
 GRAD_JOBS = [k for k, v in JOBS.items() if v["kind"] == "grad"]
 ENGINE_JOBS = [k for k, v in JOBS.items() if v["kind"] in ("md", "opt")]
+FAR_JOBS = ["far_h2o_dimer", "far_ch2o_pm3", "far_batch", "md_far_h2o"]
 STOCHASTIC_PRESET_JOBS = ["md_lang_preset", "md_xldamp_preset"]
 OPTION_JOBS = [k for k in JOBS if k.startswith("disp_") or k in ("am1_dimer_cutoff", "am1_h2o_hfflag", "am1_h2o_noeig",
                                                                  "pm3_h2o_altparams", "am1_h2o_learned")]
@@ -176,7 +193,7 @@ def _mol_names(job):
     if spec.get("dimer"):
         return [m[0]]
     if spec.get("dimer_batch"):
-        return [x[0] for x in m]
+        return [x[0] if isinstance(x, list) else x for x in m]
     return m if isinstance(m, list) else [m]
 
 
@@ -388,13 +405,16 @@ def _learned_for(job):
     return dict(mine), mine
 
 
-def _forward_grad_job(job, sett, driver):
+def _forward_grad_job(job, sett, driver, prebuilt=None):
     """-> (loss tensor, inputs {name: tensor}, molecule, driver, arrays of forward values)"""
     from seqm.basics import Energy
 
     spec = JOBS[job]
-    learned, mine = _learned_for(job)
-    mol = _build(job, sett, learned=dict(learned) if learned else None)
+    if prebuilt is not None:
+        mol, learned, mine = prebuilt
+    else:
+        learned, mine = _learned_for(job)
+        mol = _build(job, sett, learned=dict(learned) if learned else None)
     en = driver if driver is not None else Energy(sett)
     kw = {"learned_parameters": dict(learned)} if learned else {}
     Hf, Etot, Eelec, Enuc, Eiso, EnucAB, e_gap, e, P, charge, notconv = en(mol, all_terms=True, **kw)
@@ -432,6 +452,19 @@ def _alt_param_dir(spec, scratch):
 
 
 def _run_job(job, reuse, reg, scratch, idx, extra):
+    """build + run in one go"""
+    gen_ = _job_phases(job, reuse, reg, scratch, idx, extra)
+    next(gen_)
+    try:
+        next(gen_)
+    except StopIteration as stop:
+        return stop.value
+    raise RuntimeError("job generator did not finish")
+
+
+def _job_phases(job, reuse, reg, scratch, idx, extra):
+    """generator: constructs Molecule + driver / engine objects, yields the Molecule (build phase done), then runs the
+    job and returns the arrays (StopIteration.value)"""
     import torch
 
     from seqm.ElectronicStructure import Electronic_Structure
@@ -453,6 +486,7 @@ def _run_job(job, reuse, reg, scratch, idx, extra):
         es = driver if driver is not None else Electronic_Structure(sett)
         if driver is None and reuse != "none":
             ent["driver"], ent["driver_for"] = es, sorted(set(sett.get("elements", els)) - {0})
+        yield mol
         if learned:
             es(mol, learned_parameters=dict(learned))
         else:
@@ -465,9 +499,15 @@ def _run_job(job, reuse, reg, scratch, idx, extra):
             for k, v in a2.items():
                 arrays["restart_" + k] = v
     elif kind == "grad":
-        L, inputs, mol, en, arrays = _forward_grad_job(job, sett, driver)
+        from seqm.basics import Energy
+
+        learned, mine = _learned_for(job)
+        mol = _build(job, sett, learned=dict(learned) if learned else None)
+        en = driver if driver is not None else Energy(sett)
         if driver is None and reuse != "none":
             ent["driver"], ent["driver_for"] = en, sorted(set(sett.get("elements", els)) - {0})
+        yield mol
+        L, inputs, mol, en, arrays = _forward_grad_job(job, sett, en, prebuilt=(mol, learned, mine))
         names = list(inputs)
         gr = torch.autograd.grad(L, [inputs[n] for n in names], allow_unused=True)
         for n, g_ in zip(names, gr):
@@ -477,6 +517,7 @@ def _run_job(job, reuse, reg, scratch, idx, extra):
         es = driver if driver is not None else Electronic_Structure(sett)
         if driver is None and reuse != "none":
             ent["driver"], ent["driver_for"] = es, sorted(set(sett.get("elements", els)) - {0})
+        yield mol
         es(mol)
         D = mol.dm.detach().clone()
         es(mol, P0=D, dm_prop="XL-BOMD", xl_bomd_params={"k": 6})
@@ -510,6 +551,7 @@ def _run_job(job, reuse, reg, scratch, idx, extra):
         kw = {}
         for k, v in (spec.get("run_kw") or {}).items():
             kw[k] = tuple(v) if isinstance(v, list) else v
+        yield mol
         md.run(mol, spec["steps"], seed=spec["seed"], **kw)
         arrays["md_x"] = _npy(mol.coordinates)
         arrays["md_v"] = _npy(mol.velocities)
@@ -525,6 +567,7 @@ def _run_job(job, reuse, reg, scratch, idx, extra):
             opt = Geometry_Optimization_SD(sett, alpha=spec["alpha"], force_tol=1e-9, max_evl=spec["steps"])
             if reuse == "engine":
                 ent["engine"], ent["driver_for"] = opt, sorted(set(sett.get("elements", els)) - {0})
+        yield mol
         opt.run(mol, log=False)
         arrays["md_x"] = _npy(mol.coordinates)
         arrays["Etot"] = _npy(mol.Etot)
@@ -574,6 +617,79 @@ def _interleave(jobs, order, reg):
     return results
 
 
+def _poison_heap(rounds):
+    """allocator traffic: allocate and free tensors of many sizes filled with NaN / huge values, so that memory handed
+    out afterwards is NOT zero.  Correct code never reads uninitialised memory, so this cannot change any result."""
+    import torch
+
+    n = 0
+    for r in range(max(1, rounds)):
+        keep = []
+        for k in range(1, 260):
+            for fill in (float("nan"), 1e300, -7e222):
+                keep.append(torch.full((16 * k,), fill, dtype=torch.float64))
+                keep.append(torch.full((81 * k,), fill, dtype=torch.float64))
+                n += 2
+        for sz in (5000, 20000, 80000, 300000):
+            keep.append(torch.full((sz,), float("nan"), dtype=torch.float64))
+            keep.append(np.full(sz, np.nan))
+            n += 2
+        del keep
+    return n
+
+
+def _param_hashes(mol):
+    import torch
+
+    out = {}
+    for k, v in (getattr(mol, "parameters", None) or {}).items():
+        if torch.is_tensor(v):
+            out[k] = hashlib.sha1(np.ascontiguousarray(v.detach().cpu().numpy()).tobytes()).hexdigest()
+    return out
+
+
+def _build_then_run(st, reg, scratch, idx):
+    """build every job of st['build'] (Molecule + driver / engine objects) in the given order, THEN run st['run']"""
+    gens, mols, hashes, extras = {}, {}, {}, {}
+    res = {"built": list(st["build"]), "runs": []}
+    for j in st["build"]:
+        extras[j] = {}
+        try:
+            gens[j] = _job_phases(j, "none", reg, scratch, idx, extras[j])
+            mols[j] = next(gens[j])
+            hashes[j] = _param_hashes(mols[j])
+        except Exception as exc:
+            res["runs"].append({"job": j, "status": "raised", "phase": "build", "exc": ("%s: %s" % (type(exc).__name__, exc))[:300]})
+            gens.pop(j, None)
+    shared, changed = [], {}
+    names = [j for j in st["build"] if j in mols]
+    for a in names:
+        for b in names:
+            if a < b and getattr(mols[a], "parameters", None) is getattr(mols[b], "parameters", object()):
+                shared.append([a, b])
+        now = _param_hashes(mols[a])
+        diff = sorted(k for k in set(now) | set(hashes[a]) if now.get(k) != hashes[a].get(k))
+        if diff:
+            changed[a] = diff
+    res["parameters_dict_shared"] = shared
+    res["parameters_changed_by_later_build"] = changed
+    for j in st["run"]:
+        if j not in gens:
+            continue
+        try:
+            next(gens[j])
+            r = {"job": j, "status": "raised", "exc": "job generator did not finish"}
+        except StopIteration as stop:
+            r = {"job": j, "status": "ok", "arrays": _tolist(stop.value), "sha": _digest(stop.value)}
+        except Exception as exc:
+            import traceback
+
+            r = {"job": j, "status": "raised", "exc": ("%s: %s" % (type(exc).__name__, exc))[:300], "tb": traceback.format_exc()[-600:]}
+        r["reuse"] = "none"
+        res["runs"].append(r)
+    return res
+
+
 def _tolist(arrays):
     return {k: np.asarray(v).tolist() for k, v in arrays.items()}
 
@@ -602,6 +718,21 @@ def main():
         if "set_threads" in st:
             torch.set_num_threads(int(st["set_threads"]))
             results.append({"set_threads": torch.get_num_threads()})
+            continue
+        if "poison_heap" in st:
+            results.append({"poison_heap": _poison_heap(int(st["poison_heap"]))})
+            continue
+        if "build" in st:
+            before = _snapshot()
+            sys.stdout = devnull
+            try:
+                r = _build_then_run(st, reg, scratch, idx)
+            finally:
+                sys.stdout = real_stdout
+            after = _snapshot()
+            r["state_changed"] = sorted(k for k in after if after[k] != before.get(k))
+            r["wall"] = round(time.time() - t0, 3)
+            results.append(r)
             continue
         if "consume_rng" in st:
             torch.rand(int(st["consume_rng"]))
